@@ -122,7 +122,10 @@ def grammar_cases(rng: random.Random) -> List[Dict[str, Any]]:
     # recursion
     add('recursion', f'def {name} {{\n  {name}\n}}\n' + pre + f'{name}\n', ['recursi', name], max_recursion_depth=rng.choice([5, 50, 900, 1500]))
     add('recursion', f'def a1 {{\n  b1\n}}\ndef b1 {{\n  a1\n}}\n' + pre + 'a1\n', ['recursi'], max_recursion_depth=rng.choice([7, 200, 900]))
-    add('recursion', f'def {name} x {{\n  ;x\n  {name} x+1\n}}\n' + pre + f'{name} 0\n', ['recursi', name], max_recursion_depth=rng.choice([30, 900]))
+    depth = rng.choice([30, 900])
+    # (one op per level: where the levels allowed do not fit the address space, "not enough space" is the earlier, equally true, diagnosis)
+    add('recursion', f'def {name} x {{\n  ;x\n  {name} x+1\n}}\n' + pre + f'{name} 0\n',
+        ['recursi', name] + (['space'] if depth * dw >= (1 << w) - 8 * dw else []), max_recursion_depth=depth)
     deep = rng.choice([300, 1200, 3000])
     add('deep-expression', f'lz:\n' + pre + ';' + 'lz+1+' * deep + '1\n', [])
     add('deep-expression', pre + ';' + '(' * deep + '1' + ')' * deep + '\n', [])
